@@ -10,6 +10,8 @@ CONFIGS = [
     ({"enc_mode": 6}, "extreme", 128, 64, 8, 8),
     ({"screen_content_mode": 1}, "screen", 128, 128, 8, 8),
 ]
+# screen content with many colours per block (palette colour search / k-means kernels), several seeds, C vs AVX2 vs ALL
+DESKTOP = [({"screen_content_mode": 1, "logical_processors": 1}, "desktop", 192, 128, 8, 8, cs) for cs in (1, 2, 3, 4, 5, 6)]
 CONFIGS_THOROUGH = [
     ({"enc_mode": 4}, "motion", 128, 128, 8, 6), ({"enc_mode": 2}, "grad", 64, 64, 8, 4),
     ({"enc_mode": 5}, "edges", 200, 136, 10, 8), ({"film_grain_denoise_strength": 10}, "noise", 128, 64, 8, 8),
@@ -32,6 +34,15 @@ def run(res):
         cs = []
         for fl in FLAGS:
             s = {"enc_mode": 8, "logical_processors": 2, "recon_enabled": 1}
+            s.update(sets)
+            s["use_cpu_flags"] = fl
+            cs.append({"args": list(base), "sets": s, "n": n, "w": w, "h": h, "bits": bits})
+        groups.append((obsfam.key_of(cs[0], ignore=("use_cpu_flags",)), cs))
+    for sets, content, w, h, bits, n, cseed in (DESKTOP[:4] if res.tier == "quick" else DESKTOP):
+        base = ["-n", str(n), "-w", str(w), "-h", str(h), "--bits", str(bits), "--content", content, "--cseed", str(cseed)]
+        cs = []
+        for fl in (FLAGS[0], FLAGS[4], FLAGS[5]):
+            s = {"enc_mode": 8, "recon_enabled": 1}
             s.update(sets)
             s["use_cpu_flags"] = fl
             cs.append({"args": list(base), "sets": s, "n": n, "w": w, "h": h, "bits": bits})
